@@ -24,20 +24,59 @@ Theorem C16_bloom_no_false_negative_any_memory : forall bpk hashes alloc f key,
 Proof. intros bpk hashes alloc f key. exact (bloom_no_false_negative_into bp bpk hashes alloc f key bp_ok). Qed.
 Print Assumptions C16_bloom_no_false_negative_any_memory.
 
-(*    Generate returns (does not divide by zero) whenever keys * bitsPerKey < 2^32 - 7. *)
-Theorem C16_bloom_generate_total : forall bpk hashes,
-  (0 <= bpk)%Z -> (Z.of_N (lenN hashes) * bpk < 2 ^ 32 - 7)%Z ->
-  exists f, bloom_generate bp bpk hashes = Some f.
-Proof.
-  intros bpk hashes. destruct bp_min_ok as (A & B & C).
-  exact (bloom_generate_total bp bpk hashes A B C).
-Qed.
+(*    Generate returns (does not divide by zero, does not wrap) for EVERY int bitsPerKey -- negative,
+      zero, 2^32, MaxInt -- and every list of key hashes.  (Repaired code: NewBloomFilter reads a
+      negative bitsPerKey as 0, bloomBits multiplies in 64 bits under the ceiling maxBloomBits.) *)
+Theorem C16_bloom_generate_total : forall bpk hashes, exists f, bloom_generate bp bpk hashes = Some f.
+Proof. intros bpk hashes. exact (bloom_generate_total bp bpk hashes bp_tot_ok). Qed.
 Print Assumptions C16_bloom_generate_total.
 
-(*    Contains returns (does not divide by zero) on every filter of at most 512 MiB. *)
-Theorem C16_bloom_contains_total : forall f key, (lenN f <= 2 ^ 29)%N -> exists b, bloom_contains bp f key = Some b.
-Proof. exact (bloom_contains_total bp). Qed.
+(*    Contains returns on EVERY filter: every byte string of every length. *)
+Theorem C16_bloom_contains_total : forall f key, exists b, bloom_contains bp f key = Some b.
+Proof. intros f key. exact (bloom_contains_total bp f key bp_tot_ok). Qed.
 Print Assumptions C16_bloom_contains_total.
+
+(*    The code before the repairs (bloom_generate_old / bloom_contains_old) does not have these
+      properties: one key at bitsPerKey = 2^32 - 7, or at bitsPerKey = -1, divides by zero in Generate;
+      a filter of 2^29+1 bytes with k = 1 divides by zero in Contains. *)
+Theorem C16_bloom_generate_total_old_refuted :
+  bloom_generate_old bp 4294967289 [0%N] = None /\ bloom_generate_old bp (-1) [0%N] = None /\
+  ~ (forall bpk hashes, exists f, bloom_generate_old bp bpk hashes = Some f).
+Proof.
+  assert (A : bloom_generate_old bp 4294967289 [0%N] = None) by (vm_compute; reflexivity).
+  split; [exact A|]. split; [vm_compute; reflexivity|].
+  intros H. destruct (H 4294967289%Z [0%N]) as [f Hf]. rewrite A in Hf. discriminate.
+Qed.
+Print Assumptions C16_bloom_generate_total_old_refuted.
+
+Theorem C16_bloom_contains_total_old_refuted :
+  bloom_contains_fn_old bp (2 ^ 29 + 1) (fun i => if (i =? 2 ^ 29)%N then 1%N else 0%N) [] = None /\
+  ~ (forall f key, exists b, bloom_contains_old bp f key = Some b).
+Proof.
+  split; [vm_compute; reflexivity|].
+  apply bloom_contains_old_not_total. vm_compute. congruence.
+Qed.
+Print Assumptions C16_bloom_contains_total_old_refuted.
+
+(*    Nothing on disk changes: on the domain of the old totality theorems (0 <= bitsPerKey,
+      keys * bitsPerKey < 2^32 - 7; filters of at most 2^29 bytes) the repaired Generate writes the same
+      bytes and the repaired Contains gives the same answers as the code before the repairs. *)
+Theorem C16_bloom_same_bytes_on_old_domain :
+  (forall bpk hashes, (0 <= bpk)%Z -> (Z.of_N (lenN hashes) * bpk < 2 ^ 32 - 7)%Z ->
+     bloom_generate bp bpk hashes = bloom_generate_old bp bpk hashes) /\
+  (forall f key, (lenN f <= 2 ^ 29)%N -> bloom_contains bp f key = bloom_contains_old bp f key).
+Proof.
+  destruct bp_tot_ok as (_ & _ & _ & Hm & Hp). split.
+  - intros bpk hashes. exact (bloom_generate_same_on_old_domain bp bpk hashes Hm).
+  - intros f key. exact (bloom_contains_same_on_old_domain bp f key Hp).
+Qed.
+Print Assumptions C16_bloom_same_bytes_on_old_domain.
+
+(*    The (K) evaluator runs Contains on (length, byte function) for filters no list can hold; it is
+      the same function. *)
+Theorem C16_bloom_contains_fn_eq : forall f key, bloom_contains_fn bp (lenN f) (get_at f) key = bloom_contains bp f key.
+Proof. exact (bloom_contains_fn_eq bp). Qed.
+Print Assumptions C16_bloom_contains_fn_eq.
 
 (* 2. bloom_reads_any_k: a filter whose stored k is in the reserved range (> 30) answers true for
       every key; and a generated filter never stores such a k (so generated filters are probed). *)
